@@ -712,6 +712,10 @@ theorem lingo_lv (lv : Expr) (hf : FragLv lv = true) (l : Node) (h : EmbLv lv l)
     simp only [FragLv] at hf
     simp only [EmbLv] at h
     exact lingo_emb _ hf l h ind
+  | movie v =>
+    simp only [FragLv] at hf
+    simp only [EmbLv] at h
+    exact lingo_emb _ (by simpa [FragE] using hf) l h ind
   | _ => simp [FragLv] at hf
 
 theorem pyGet_last {α} (l : List α) (x : α) : pyGet (l ++ [x]) (-1) = .ok x := by
@@ -832,6 +836,7 @@ theorem lingo_stmt (s : Stmt) (hf : FragS s = true) (n : Node) (h : EmbS s n) (i
         rw [hr]
         simp [startsWith, S, List.isPrefixOf]
       | oprop n o => simp [mE, startsWith, S, List.isPrefixOf]
+      | movie n => simp [mE, startsWith, S, List.isPrefixOf]
       | _ => simp [FragLv] at hf
     simp only [lingo, if_true, e1, e2, bind, Except.bind, Lscr.Name.asStr, hnf, Bool.false_eq_true, false_and, if_false, Lscr.Name.str,
       pure, Except.pure, mS]
